@@ -589,6 +589,4 @@ def run(ctx):
     c06.limits(ctx, prog)
     run_bound_rule(ctx, prog)
     import codecrules
-    codecrules.emit_symbol_law(ctx, prog, 'C05')
-    codecrules.emit_state_signatures(ctx, prog, 'C05')
     codecrules.unrle_walk(ctx, prog, 'C05')
